@@ -59,6 +59,9 @@ Proof.
   - (* EParen *)
     destruct (IH e ltac:(lia) Hc) as (A & B & C).
     cbn [full_paren core_expr wpx strip_spans strip_paren]. rewrite A, B, C. repeat split; reflexivity.
+  - (* EField *)
+    destruct (IH e ltac:(lia) Hc) as (A & B & C).
+    cbn [full_paren core_expr wpx strip_spans strip_paren]. rewrite A, !B, C. repeat split; reflexivity.
   - (* EIf *)
     apply andb_true_iff in Hc as [Hc Hc3]. apply andb_true_iff in Hc as [Hc1 Hc2].
     destruct (IH e1 ltac:(lia) Hc1) as (A1 & B1 & C1). destruct (IH e2 ltac:(lia) Hc2) as (A2 & B2 & C2).
